@@ -7,6 +7,12 @@ C14.cache  check_sig_cached: the cache key covers the signed data, the full
            exactly check_sig's result.
 C14.nsec   nsec_for_not_exists: the delegation / DNAME exclusion tests the
            NSEC owner as a suffix of the *target* (not the reverse).
+C14.range  nsec3_in_range is a strictly open interval: owner hash, target
+           hash and next hash are compared with `<` / `>` only -- an NSEC3
+           record that *matches* a name never "covers" it.
+C14.chain  do_cname_dname folds the validation state of every link it
+           follows (CNAME and DNAME alike) into the state of the chain before
+           it goes on to the next name.
 C14.panic  no unwrap/expect on values derived from upstream response content
            whose error type is a parse/decode error, in any validator body
            (each remaining site is audited with the invariant it relies on).
@@ -55,6 +61,8 @@ def run(ctx):
     rule_time(ctx, F)
     rule_anchor(ctx, F)
     rule_nsec3(ctx, F)
+    rule_range(ctx, F)
+    rule_chain(ctx, F)
 
 
 def rule_sig(ctx, F):
@@ -397,3 +405,54 @@ def rule_nsec3(ctx, F):
            "nsec3_for_not_exists can go on to the next name without assigning the closest-encloser-exists flag: "
            "a name for which no NSEC3 matched or covered is treated as existing, and a denial with the "
            "intermediate NSEC3 left out is accepted as secure", b.where(head))
+
+
+def rule_range(ctx, F):
+    R = "C14.range"
+    ctx.floor(R, 4)
+    bs = F.find_bodies(r"^dnssec::validator::nsec::nsec3_in_range(::<.*>)?$")
+    if not ctx.anchor(R, "nsec3_in_range", len(bs) == 1):
+        return
+    b = bs[0]
+    n = 0
+    for bb, t in b.calls():
+        m = re.search(r"PartialOrd(<.*>)?(>| for &A>)?::(lt|le|gt|ge)$", t["fn"] or "")
+        if not m or len(t["args"]) < 2:
+            continue
+        n += 1
+        op = m.group(3)
+        args = sorted(show(deep_strip(b.term_of_operand(a))) for a in t["args"][:2])
+        ctx.ob(R, b, "comparison #%d of %s is strict" % (n, "/".join(args)), op in ("lt", "gt"),
+               "nsec3_in_range compares %s with `%s`: a hash equal to the record's own owner hash (or next hash) counts as inside "
+               "the range, so an NSEC3 record that matches an existing name is accepted as proof that the name does not exist"
+               % (" and ".join(args), {"le": "<=", "ge": ">="}.get(op, op)), b.where(bb))
+
+
+def rule_chain(ctx, F):
+    from rulelib import must_pass, fmt_path
+    R = "C14.chain"
+    ctx.floor(R, 2)
+    bs = [b for p, b in F.bodies.items() if re.match(r"^dnssec::validator::utilities::do_cname_dname::\{closure#0\}$", p)]
+    if not ctx.anchor(R, "do_cname_dname", len(bs) == 1):
+        return
+    b = bs[0]
+    follows = [(bb, (t["fn"] or "").split("::")[-1]) for bb, t in b.calls()
+               if re.search(r"Cname::<.*>::cname$|utilities::map_dname$", t["fn"] or "")]
+    if not ctx.anchor(R, "the two link-following sites (cname(), map_dname)", len(follows) >= 2, b.where()):
+        return
+    vias = []
+    for bb, t in b.calls():
+        if (t["fn"] or "").endswith("utilities::map_maybe_secure") and t["args"]:
+            if "state(" in show(deep_strip(b.term_of_operand(t["args"][0]))):
+                vias.append(bb)
+    heads = {h for (u, h, lab) in b.back_edges()}
+    for bb, what in follows:
+        hs = [h for h in heads if b.dominates(h, bb)]
+        if not hs:
+            continue
+        outer = [h for h in hs if all(b.dominates(h, o) for o in hs)][0]
+        ok, path = must_pass(b, bb, [outer], vias) if vias else (False, None)
+        ctx.ob(R, b, "the state of the %s link is folded into the chain" % ("CNAME" if what == "cname" else "DNAME"), ok,
+               "do_cname_dname follows a %s to the next name without map_maybe_secure(g.state(), ..): an unsigned / insecure link "
+               "leaves the chain's state Secure (path %s)" % ("CNAME" if what == "cname" else "DNAME", fmt_path(path) if path else ""),
+               b.where(bb))
